@@ -265,7 +265,10 @@ def _bodies(spec, d):
     for x in spec:
         if x is None or not _nonempty(x, d - 1):
             continue
-        sub = [("s",)] + [("d",) + b for b in _bodies(x, d - 1)]
+        # 't' = the body touches the offered sub-fiber through a reference
+        # (getPayloadRef creates an element / an empty child) but writes no value;
+        # 'i' = it walks it densely with iterShapeRef
+        sub = [("s",), ("t",), ("i",)] + [("d",) + b for b in _bodies(x, d - 1)]
         parts.append(sub)
     res = [()]
     for sub in parts:
@@ -335,8 +338,14 @@ def _populate(z, a, d, body):
                 zr <<= 1
         return
     for c, (zs, asub) in z << a:
-        if next(body) == "d":
+        act = next(body)
+        if act == "d":
             _populate(zs, asub, d - 1, body)
+        elif act == "t":
+            zs.getPayloadRef(0)
+        elif act == "i":
+            for _ in zs.iterShapeRef():
+                pass
 
 
 def _apply(S, op):
